@@ -9,7 +9,7 @@ for P in C01 C02 C03 C04 C05 C06 C07 C08 C09 C10 C11 C12 C13 C14 C15 C16 C17 C18
   C=/work/rb/$P
   [ -d $C ] || git clone -q /repo $C
   git -C $C checkout -q -- . ; git -C $C fetch -q /repo HEAD; git -C $C reset -q --hard FETCH_HEAD
-  for d in /verif/seeded/$P-m*/ /tmp/seed3/$P-out/m*/; do
+  for d in /verif/seeded/$P-m*/; do
     [ -f $d/patch.diff ] || continue
     git -C $C apply --whitespace=nowarn $d/patch.diff 2>/dev/null || { echo "NOAPPLY $d"; continue; }
     for s in $SEEDS; do
